@@ -225,6 +225,10 @@ type version struct {
 	// "source" the download or the parser).
 	Kind  string `json:"kind,omitempty"`
 	Fault string `json:"fault,omitempty"`
+	// Round 6 (K), Kind "migrate" (dhcpd.migrateDB): the path of the legacy
+	// leases.db and its state when the call started (MigPresent ...).
+	MigOld   string `json:"mig_old,omitempty"`
+	MigState int    `json:"mig_state"`
 	// MayFail: an error of this save is not a finding by itself (a list above a
 	// download size limit may be refused); dst must then hold the previous version.
 	MayFail bool `json:"may_fail,omitempty"`
@@ -276,6 +280,144 @@ type Case struct {
 	// MayFail for the next save (see version.MayFail); reset after every save.
 	MayFail bool
 	saves   int
+	// migWatch: set while a migration runs (see SaveMigrate); read by the
+	// concurrent reader.
+	migWatch atomic.Pointer[migWatch]
+	migBad   atomic.Pointer[string]
+}
+
+// States of the legacy lease database at the start of a migration.
+const (
+	MigPresent    = 0 // there, decodable
+	MigAbsent     = 1
+	MigNull       = 2 // decodes to no table at all: nothing to migrate
+	MigGarbage    = 3 // not decodable
+	MigUnreadable = 4 // cannot be opened
+)
+
+type migWatch struct {
+	old     string
+	wantSha string
+}
+
+// SaveMigrate runs one real migration of the legacy lease database oldPath
+// into c.Dst (f = dhcpd.migrateDB or dhcpd.Create) and judges the property on
+// BOTH paths: whatever happens, the leases must be recoverable: c.Dst is the
+// complete new version (want), or the legacy file is still there,
+// byte-identical.  state: what the legacy file is at the start; fault: ""
+// none, "limit" (RLIMIT_FSIZE = limit around f), "nofile" (RLIMIT_NOFILE = 0:
+// not even the legacy file can be opened), "nodir" (the harness made the
+// directory of c.Dst unusable: the temporary file cannot be created); in a
+// run with Session.Inject every fsync resp. rename fails.  While f runs the
+// concurrent reader of the case reads the legacy path and THEN c.Dst: a legacy
+// file that is gone must go with a complete new file.
+func (c *Case) SaveMigrate(label, oldPath string, state int, fault string, limit uint64, want []byte, f func() error) (err error) {
+	c.begin()
+	if fault == "" && c.s.Inject != "" && state == MigPresent {
+		fault = c.s.Inject
+	}
+	oldBefore, oldErr := os.ReadFile(oldPath)
+	oldPresent := oldErr == nil
+	wh := sha256.Sum256(want)
+	w := &migWatch{old: oldPath, wantSha: hex.EncodeToString(wh[:])}
+	if state == MigPresent && oldPresent {
+		c.migWatch.Store(w)
+	}
+	switch fault {
+	case "limit":
+		signal.Ignore(syscall.SIGXFSZ)
+		var old syscall.Rlimit
+		if e := syscall.Getrlimit(syscall.RLIMIT_FSIZE, &old); e != nil {
+			c.s.T.Fatalf("getrlimit: %v", e)
+		}
+		lim := old
+		lim.Cur = limit
+		if e := syscall.Setrlimit(syscall.RLIMIT_FSIZE, &lim); e != nil {
+			c.s.T.Fatalf("setrlimit: %v", e)
+		}
+		func() {
+			defer func() {
+				if e := syscall.Setrlimit(syscall.RLIMIT_FSIZE, &old); e != nil {
+					c.s.T.Fatalf("setrlimit back: %v", e)
+				}
+			}()
+			err = f()
+		}()
+		c.Classes = append(c.Classes, "fail-write-limit")
+	case "nofile":
+		var old syscall.Rlimit
+		if e := syscall.Getrlimit(syscall.RLIMIT_NOFILE, &old); e != nil {
+			c.s.T.Fatalf("getrlimit: %v", e)
+		}
+		lim := old
+		lim.Cur = 0
+		if e := syscall.Setrlimit(syscall.RLIMIT_NOFILE, &lim); e != nil {
+			c.s.T.Fatalf("setrlimit: %v", e)
+		}
+		func() {
+			defer func() {
+				if e := syscall.Setrlimit(syscall.RLIMIT_NOFILE, &old); e != nil {
+					c.s.T.Fatalf("setrlimit back: %v", e)
+				}
+			}()
+			err = f()
+		}()
+		c.Classes = append(c.Classes, "fail-open")
+	default:
+		err = f()
+	}
+	c.migWatch.Store(nil)
+	v, cur := snapshotB(c.Dst)
+	oldAfter, oldErrAfter := os.ReadFile(oldPath)
+	oldStill := oldErrAfter == nil
+	expectOK := state == MigPresent && fault == ""
+	v.Label, v.Kind, v.Fault, v.MigOld, v.MigState = label, "migrate", fault, oldPath, state
+	v.ExpectErr = !expectOK && state != MigAbsent && state != MigNull
+	v.Skipped = err == nil && !expectOK
+	if err != nil {
+		v.Err = err.Error()
+		if len(v.Err) > 200 {
+			v.Err = v.Err[:200]
+		}
+	}
+	newOK := v.Exists && bytes.Equal(cur, want)
+	oldOK := oldStill && oldPresent && bytes.Equal(oldAfter, oldBefore)
+	faultDesc := fault
+	if faultDesc == "" {
+		faultDesc = "none"
+	}
+	switch {
+	case state == MigPresent && !oldPresent:
+		c.Fail("migration %q: the legacy %s this start was to migrate is not there (lost before this call); %s is %s", label, filepath.Base(oldPath), filepath.Base(c.Dst), describe(v.Exists, cur))
+	case state == MigPresent && !newOK && !oldOK:
+		c.Fail("migration %q (fault: %s, reported: %q): the lease database holds NEITHER version: %s is %s (complete new version: %d bytes) and the legacy %s is %s (it held %d bytes)",
+			label, faultDesc, v.Err, filepath.Base(c.Dst), describe(v.Exists, cur), len(want), filepath.Base(oldPath), describe(oldStill, oldAfter), len(oldBefore))
+	case state == MigPresent && err == nil && !newOK:
+		c.Fail("migration %q reported success and %s is %s, not the complete new version (%d bytes)", label, filepath.Base(c.Dst), describe(v.Exists, cur), len(want))
+	case state == MigPresent && err == nil && oldStill:
+		c.Fail("migration %q reported success and the legacy %s is still there", label, filepath.Base(oldPath))
+	case state == MigPresent && !expectOK && err == nil:
+		c.Fail("migration %q reported success under the injected fault %s", label, faultDesc)
+	case state != MigPresent && (oldStill != oldPresent || !bytes.Equal(oldAfter, oldBefore)):
+		c.Fail("migration %q had nothing it could migrate (legacy state %d) and changed the legacy %s: %s", label, state, filepath.Base(oldPath), describe(oldStill, oldAfter))
+	case (state == MigGarbage || state == MigUnreadable) && err == nil:
+		c.Fail("migration %q could not read the legacy database (state %d) and reported success", label, state)
+	}
+	c.want, c.hasWant = nil, false
+	if expectOK {
+		c.want, c.hasWant = want, true
+	}
+	c.judge(&v, cur, err == nil && expectOK)
+	c.versions = append(c.versions, v)
+	c.Classes = append(c.Classes, "migrateDB")
+	return err
+}
+
+func describe(present bool, b []byte) string {
+	if !present {
+		return "ABSENT"
+	}
+	return fmt.Sprintf("%d bytes", len(b))
 }
 
 // dump stores a reference content for the parser (outside the traced root),
@@ -601,7 +743,30 @@ func (s *Session) Case(name, dst string, keep []string, classes []string, body f
 		defer wg.Done()
 		for {
 			last := stop.Load()
+			// round 6 (K): while a migration runs, the legacy path is read FIRST:
+			// if it is gone (or changed), dst, read afterwards, must be the complete
+			// new version.  The observation counts only if the same migration is
+			// still running when both reads are done.
+			mw := c.migWatch.Load()
+			legacyGone, legacyDesc := false, ""
+			if mw != nil {
+				ob, oerr := os.ReadFile(mw.old)
+				if errors.Is(oerr, fs.ErrNotExist) {
+					legacyGone, legacyDesc = true, "absent"
+				} else if oerr != nil {
+					mw = nil
+				}
+				_ = ob
+			}
 			b, err := os.ReadFile(dst)
+			if mw != nil && legacyGone && c.migBad.Load() == nil && (err == nil || errors.Is(err, fs.ErrNotExist)) {
+				h := sha256.Sum256(b)
+				if (err != nil || hex.EncodeToString(h[:]) != mw.wantSha) && c.migWatch.Load() == mw {
+					msg := fmt.Sprintf("concurrent reader, during a migration: the legacy %s was %s and %s, read afterwards, was %s: the lease database held neither version",
+						filepath.Base(mw.old), legacyDesc, filepath.Base(dst), describe(err == nil, b))
+					c.migBad.Store(&msg)
+				}
+			}
 			o := obs{}
 			if err == nil {
 				h := sha256.Sum256(b)
@@ -666,6 +831,9 @@ func (s *Session) Case(name, dst string, keep []string, classes []string, body f
 			break
 		}
 		j = k
+	}
+	if mb := c.migBad.Load(); mb != nil && bad == "" {
+		bad = *mb
 	}
 	rec := map[string]any{
 		"seg": s.seg, "name": name, "dst": dst, "keep": keep, "classes": c.Classes,
